@@ -61,3 +61,49 @@ pub fn tryproj(seed: u64, verbose: bool) -> i32 {
         }
     }
 }
+
+/// `dst inst <acceptance id> <ops>`: ops = comma list of B(uild) K(check) C(ompile only) FB FK
+pub fn inst(proj: &str, ops: &str, o: &str) -> i32 {
+    use crate::build::*;
+    let spec = acceptance_projects()
+        .iter()
+        .find(|p| p.id.ends_with(proj))
+        .expect("project")
+        .clone();
+    let steps = ops
+        .split(',')
+        .enumerate()
+        .map(|(i, o)| Step {
+            op: match o {
+                "B" => Op::Build,
+                "K" => Op::Check,
+                "C" => Op::CheckpointCompileRestore,
+                "FB" => Op::FreshBuild,
+                "FK" => Op::FreshCheck,
+                _ => panic!("op"),
+            },
+            epoch: 1000 + i as u64 * 2 + 1,
+            width: 1,
+        })
+        .collect();
+    let sc = Scenario {
+        order: identity_order(&spec),
+        spec,
+        opts: {
+            let mut op = Opts::default_check();
+            let b = o.as_bytes();
+            if b.len() >= 4 {
+                op.trace_level = b[0] - b'0';
+                op.trace_scope = b[1] - b'0';
+                op.all_types = b[2] == b'1';
+                op.uplc_dump = b[3] == b'1';
+            }
+            op.max_success = 12;
+            op
+        },
+        steps,
+    };
+    let r = on_fresh_thread("run", move || execute_scenario(&sc).map(|o| (o.divergences, o.registration_orders)));
+    println!("{r:?}");
+    0
+}
